@@ -37,6 +37,7 @@ type Run struct {
 	start    time.Time
 	deadline time.Time
 
+	replaying   bool
 	mu          sync.Mutex
 	evals       atomic.Int64
 	nontrivial  atomic.Int64
@@ -99,6 +100,11 @@ func (r *Run) Violation(key, msg string, replay any) {
 	if r.findingKeys[key] > 20 {
 		return
 	}
+	if r.replaying {
+		// re-running a stored case: report, but do not write another artefact
+		r.findings = append(r.findings, evid.Finding{Key: key, Msg: msg})
+		return
+	}
 	wrapped := map[string]any{"property": r.Property, "part": r.Part, "key": key, "msg": msg, "case": replay}
 	path := evid.SaveReplay(r.Property, r.Part+"-"+key+"-"+fmt.Sprint(r.findingKeys[key]), wrapped)
 	r.findings = append(r.findings, evid.Finding{Key: key, Msg: msg, Replay: path})
@@ -156,6 +162,7 @@ func Main(t *testing.T, property, part string, run func(r *Run, replay *ReplayCa
 		if err := json.Unmarshal(b, &rc); err != nil {
 			t.Fatal(err)
 		}
+		r.replaying = true
 		run(r, &rc)
 		if len(r.findings) > 0 {
 			for _, f := range r.findings {
